@@ -122,7 +122,67 @@ def refusals(ctx):
                 "sub_path is cut out of the tour's own nodes between the positions of the segment's ends")
 
 
+def gap_guard(ctx):
+    """the reachability test across the gap is skipped only when there is no node in front / behind"""
+    key = T("check_if_sequence_is_removable")
+    o, fd = ctx.require_fn("R2.gap-test-guard", "T12", key,
+                           "the can_reach test across the gap is performed whenever a node exists in front of and behind the removed block")
+    if fd is None:
+        return
+    cr = calls_to(fd, N("can_reach"))
+    if len(cr) != 1:
+        ctx.undecided(o, "expected one can_reach call, found %d" % len(cr))
+        return
+    found = []
+    for sw, cal, d in controlling_sources(fd, cr[0]):
+        if d is not None and d.kind == "assign" and d.rv_kind() == "binop" and d.rv["op"] in ("Gt", "Ge", "Lt", "Le", "Ne", "Eq"):
+            a, b = d.ops
+            for x, y, flip in ((a, b, False), (b, a, True)):
+                if x.place is not None and y.const_val() is not None:
+                    at = fd.slice_operand_pure(d, x)["atoms"]
+                    if "param:2" in at and not any(t.startswith("call:") for t in at):
+                        op = d.rv["op"] if not flip else {"Gt": "Lt", "Lt": "Gt", "Ge": "Le", "Le": "Ge"}.get(d.rv["op"], d.rv["op"])
+                        found.append((d, op, y.const_val()))
+    if not found:
+        ctx.undecided(o, "no comparison of start_position with a constant controls the gap test")
+        return
+    d, op, c = found[0]
+    good = (op == "Gt" and c == 0) or (op == "Ge" and c == 1) or (op == "Ne" and c == 0)
+    ctx.decide(o, good, "start_position %s %d" % ({"Gt": ">", "Ge": ">=", "Ne": "!="}.get(op, op), c),
+               "the gap test is only performed when start_position %s %d: removing a block that starts at position 1 skips the "
+               "connectability test although node 0 exists in front of it" % ({"Gt": ">", "Ge": ">=", "Lt": "<", "Le": "<="}.get(op, op), c),
+               loc=d.line())
+
+
+def none_means_all_reachable(ctx):
+    """the two searches answer None only on the early exit where can_reach holds for the extreme node"""
+    for fn in ("latest_not_reaching_node", "latest_not_reached_by_node"):
+        key = T(fn)
+        o, fd = ctx.require_fn("R1.%s.none-only-if-reachable" % fn, "T1", key,
+                               "%s answers None only when the tour's extreme node is connectable with the given node" % fn)
+        if fd is None:
+            continue
+        bad = []
+        for d in fd.defs.get(0, ()):
+            i = d.instr
+            if i is None:
+                continue
+            if i.kind == "assign" and i.rv_kind() == "agg" and i.rv.get("adt") == "core::option::Option":
+                if i.rv.get("v") == "Some":
+                    continue
+                cs = controlling_sources(fd, i)
+                if not cs or any(cal != N("can_reach") for sw, cal, dd in cs):
+                    bad.append(i)
+            else:
+                bad.append(i)
+        ctx.decide(o, not bad, "None is assigned only under can_reach(..)",
+                   "the result can also be None at %s without can_reach holding (e.g. an early `?` return): the caller then treats all "
+                   "tour nodes as connectable and nothing is dropped" % (bad[0].line() if bad else "?"), loc=bad[0].line() if bad else None)
+
+
 def rules(ctx):
+    gap_guard(ctx)
+    none_means_all_reachable(ctx)
     hand_back(ctx)
     refusals(ctx)
     tie_prefilter(ctx)
